@@ -113,6 +113,8 @@ struct Rtl {
   }
   void clock() { top->i_clk = 1; top->eval(); top->i_clk = 0; top->eval(); }
   void reset() { top->i_rst = 1; top->eval(); top->i_clk = 1; top->eval(); top->i_clk = 0; top->eval(); top->i_rst = 0; top->eval(); }
+  // reset asserted and released between two clock edges (i_rst is an input like any other)
+  void pulseReset() { top->i_rst = 1; top->eval(); top->i_rst = 0; top->eval(); }
 };
 
 static std::string regsJson(const Regs &r) {
@@ -133,7 +135,7 @@ struct Stats {
   bool byteSeen[256] = {};
   uint64_t nmis = 0;
   std::vector<std::string> mis, samples;
-  uint64_t filtered = 0, archReached = 0, binaries = 0;
+  uint64_t filtered = 0, archReached = 0, binaries = 0, resets[2] = {0, 0};
   uint64_t opcClass[16][3] = {};
 };
 
@@ -141,7 +143,8 @@ static void writeStats(const char *path, Stats &st, uint64_t seed, const char *m
   vio::Json j;
   j.str("mode", mode).unum("seed", seed).unum("cycles", st.cycles).unum("cases", st.cases).unum("stores", st.stores)
    .unum("sysreq", st.sysreq).unum("signals", st.signals).unum("mismatches", st.nmis).unum("filtered", st.filtered)
-   .unum("arch_reached", st.archReached).unum("binaries", st.binaries);
+   .unum("arch_reached", st.archReached).unum("binaries", st.binaries)
+   .unum("resets_over_clock_edge", st.resets[0]).unum("reset_pulses_between_edges", st.resets[1]);
   std::vector<long long> bs; int nb = 0;
   for (int i = 0; i < 256; i++) { bs.push_back(st.byteSeen[i]); nb += st.byteSeen[i]; }
   j.num("distinct_bytes", nb).raw("bytes_seen", vio::jsonNumArray(bs));
@@ -166,6 +169,7 @@ struct Tri {
   void settle() { sv.settle(); v.settle(); s.settle(); }
   void clock() { sv.clock(); v.clock(); s.clock(); }
   void reset() { sv.reset(); v.reset(); s.reset(); }
+  void pulseReset() { sv.pulseReset(); v.pulseReset(); s.pulseReset(); }
   void mismatch(const char *what, const std::string &detail) {
     st.nmis++;
     if (st.mis.size() < 20) { vio::Json j; j.str("what", what).str("ctx", ctx).raw("detail", detail); st.mis.push_back(j.done()); }
@@ -262,9 +266,12 @@ static int c16Main(int argc, char **argv) {
     T.reset();
     int len = 20 + (int)r.below(300);
     for (int k = 0; k < len; k++) {
-      if (r.below(40) == 0) {
-        // reset in the middle of a run (e.g. between a prefix and its instruction): the three designs must agree afterwards
-        T.reset();
+      unsigned ev = (unsigned)r.below(40);
+      if (ev <= 1) {
+        // reset in the middle of a run (e.g. between a prefix and its instruction), held over a clock edge or pulsed
+        // between two edges: the three designs must agree afterwards
+        if (ev == 0) T.reset(); else T.pulseReset();
+        st.resets[ev]++;
         Regs ra = T.sv.regs(), rb = T.v.regs(), rc = T.s.regs();
         st.signals += 8;
         if (!(ra == rb) || !(rb == rc)) {
@@ -428,6 +435,12 @@ static uint32_t pickWordIn(Prng &r) {
   return (uint32_t)r.below(MEM_WORDS);
 }
 
+// Register contents planted before a reset: non-zero everywhere, pc inside the memory both implementations provide.
+static Regs dirtyRegs(uint64_t k) {
+  Prng d(k, 77, 0);
+  return Regs{(uint32_t)(64 + d.below(MEM_WORDS * 4 - 128)), d.u32() | 1u, d.u32() | 0x10u, d.u32() | 0x100u};
+}
+
 static void c03Grid(Co &C, Prng &r, unsigned byte, bool viaArch) {
   unsigned opc = byte >> 4, nib = byte & 15;
   uint32_t pc = pickPcCommon(r), a = pickVal(r), b = pickVal(r), o = pickVal(r) & ~0xFu;
@@ -480,8 +493,8 @@ static void c03Grid(Co &C, Prng &r, unsigned byte, bool viaArch) {
     if (pc < 64 + code.size()) { C.setRegs(Regs{pc, a, b, o}); C.step(); return; }
     for (size_t i = 0; i < code.size(); i++) C.pokeByte((uint32_t)i, code[i]);
     C.pokeByte(pc, (uint8_t)byte);
-    // memory.sv also writes on the rising edge of reset: make sure no store is under the stale pc
-    C.rtl.setRegs(Regs{0, 0, 0, 0}); C.rtl.settle();
+    // "started from reset": whatever the registers held before must not matter
+    C.rtl.setRegs(dirtyRegs(r.u64())); C.rtl.settle();
     C.rtl.reset();
     C.sim.p->verifSetPC(0); C.sim.p->verifSetAreg(0); C.sim.p->verifSetBreg(0); C.sim.p->verifSetOreg(0);
     C.ref.pc = C.ref.areg = C.ref.breg = C.ref.oreg = 0;
@@ -574,7 +587,7 @@ static void c03Binary(Co &C, const char *path, Stats &st) {
   C.world = refisa::World(); C.world.consoleIn = input;
   C.sim.out.clear(); C.sim.out.str("");
   C.sim.p->verifSetRunning(true); C.ref.running = true;
-  C.rtl.setRegs(Regs{0, 0, 0, 0}); C.rtl.settle();
+  C.rtl.setRegs(dirtyRegs(0x5EED0000u + (uint64_t)st.binaries)); C.rtl.settle();
   C.rtl.reset();
   C.sim.p->verifSetPC(0); C.sim.p->verifSetAreg(0); C.sim.p->verifSetBreg(0); C.sim.p->verifSetOreg(0);
   C.ref.pc = C.ref.areg = C.ref.breg = C.ref.oreg = 0;
